@@ -12,6 +12,7 @@ PROP = {
         "quick": [B("stable"), B("nightly", 0.25, False)],
         "thorough": [B("stable"), B("nightly", 0.25, False)],
     },
+    "volume": {"quick": 6},
     "technique": "property-based testing: proptest generators (all scale sign patterns, rotations aimed at every matrix-to-quaternion branch and its boundaries) against a double-double reference T*R*S written in the harness, "
                  "plus the documented product of glam's own elementary constructors as a relational oracle, in the SSE2, scalar-math, libm and nightly core-simd builds",
     "level_text": "Generated-input search: every combined constructor (from_scale_rotation_translation, from_rotation_translation, from_mat3_translation, from_scale_angle_translation, from_scale_angle, "
